@@ -133,6 +133,7 @@ def r2_roundtrip(a, tier):
         ('EmptyClosure', Stub(Q['EmptyClosure']), ('eclo',)),
         ('Constant', Stub(Q['Constant'], literal='x + 1'), ('const', 'x + 1')),
         ('Alert', Stub(Q['Alert'], literal='msg', level=2), ('alert', 2, 'msg')),
+        ('Constant over two lines', Stub(Q['Constant'], literal='a\nb'), ('const', 'a\nb')),
         ('NameMeta', Stub(f'{PEG}.meta.NameMeta'), ('meta', 'name')),
         ('IntMeta', Stub(f'{PEG}.meta.IntMeta'), ('meta', 'int')),
         ('UIntMeta', Stub(f'{PEG}.meta.UIntMeta'), ('meta', 'uint')),
@@ -237,6 +238,7 @@ def r3_nothing_dropped(a, tier):
         dict(name='fresh', params=(), kwparams={}, base=None, is_name=False, no_memo=True),
         dict(name='typed', params=('Node', 'Other'), kwparams={'k': 'v'}, base=None, is_name=True, no_memo=True),
         dict(name='derived', params=(), kwparams={}, base='basic', is_name=False, no_memo=False),
+        dict(name='derivedtyped', params=('Node',), kwparams={}, base='basic', is_name=False, no_memo=False),
         dict(name='strparams', params=('123', 'True'), kwparams={'k': '7'}, base=None, is_name=False, no_memo=False),
         dict(name='mixed', params=(123, 'abc'), kwparams={}, base=None, is_name=False, no_memo=False),
     ]
